@@ -54,6 +54,10 @@ def run(tier, seed):
         problems_data.install(eng3)
         verify_contracts(eng3, problems_data.contracts, chk)
     guarded(chk, 'proved part problems_data', data)
+    # (A1) the matrix entries themselves: bilform / __integrate under the contracts of C01 (tiling, rule premise, orientation;
+    # any change of bilform's value for some pair of elements breaks the consistency that C03 composes)
+    from checks import sl_proved
+    guarded(chk, 'proved part bilform (contracts of C01)', sl_proved.add_obligations, chk, "C01", tier, seed)
     from vlib import smt
     smt.close_pool()
     try:
